@@ -12,8 +12,8 @@ V = os.path.dirname(os.path.dirname(os.path.abspath(__file__)))
 REPO = os.environ.get('VERIF_REPO', '/repo')
 
 
-def one(name, tmp):
-    sd = os.path.join(V, 'seeded', name)
+def one(name, tmp, corpus='seeded'):
+    sd = os.path.join(V, corpus, name)
     meta = json.load(open(os.path.join(sd, 'meta.json')))
     prop = meta['property']
     wt = os.path.join(tmp, name)
@@ -34,6 +34,13 @@ def one(name, tmp):
                 keys.append(l.strip().split(' at ')[0])
         res.update(rc=r.returncode, violations=keys[:8],
                    status='detected' if r.returncode == 1 and 'VIOLATION property=' + prop in r.stdout else ('broken' if r.returncode == 2 else 'MISSED'))
+        if meta.get('expected_rule') == 'NONE':       # behaviour-preserving edit: the check must stay silent
+            res['status'] = 'silent' if r.returncode == 0 else 'FALSE-ALARM' if r.returncode == 1 else 'broken'
+            return res
+        exp = meta.get('expected_rule')
+        if exp and res['status'] == 'detected' and not any(k.startswith(exp) for k in keys):
+            res['status'] = 'OTHER-RULE'
+            res['why'] = 'expected %s' % exp
         if r.returncode == 2:
             res['why'] = [l for l in r.stdout.splitlines() if l.startswith('ANALYSIS-BROKEN')][:1]
         return res
@@ -41,14 +48,16 @@ def one(name, tmp):
         shutil.rmtree(wt, ignore_errors=True)
 
 
-def run(prop=None, jobs=4):
-    names = sorted(n for n in os.listdir(os.path.join(V, 'seeded')) if os.path.exists(os.path.join(V, 'seeded', n, 'meta.json')))
+def run(prop=None, jobs=4, corpus='seeded'):
+    if not os.path.isdir(os.path.join(V, corpus)):
+        return []
+    names = sorted(n for n in os.listdir(os.path.join(V, corpus)) if os.path.exists(os.path.join(V, corpus, n, 'meta.json')))
     if prop:
-        names = [n for n in names if json.load(open(os.path.join(V, 'seeded', n, 'meta.json')))['property'] == prop]
+        names = [n for n in names if json.load(open(os.path.join(V, corpus, n, 'meta.json')))['property'] == prop]
     tmp = tempfile.mkdtemp(prefix='verif_seed_', dir=os.environ.get('TMPDIR') or None)
     try:
         with ThreadPoolExecutor(jobs) as ex:
-            return list(ex.map(lambda n: one(n, tmp), names))
+            return list(ex.map(lambda n: one(n, tmp, corpus), names))
     finally:
         shutil.rmtree(tmp, ignore_errors=True)
 
@@ -58,18 +67,19 @@ if __name__ == '__main__':
     ap.add_argument('--prop')
     ap.add_argument('--jobs', type=int, default=4)
     ap.add_argument('--json')
+    ap.add_argument('--corpus', default='seeded', choices=['seeded', 'mutants'])
     ap.add_argument('--update-meta', action='store_true', help='record the violated rule instances in seeded/<name>/meta.json')
     a = ap.parse_args()
-    out = run(a.prop, a.jobs)
+    out = run(a.prop, a.jobs, a.corpus)
     for r in out:
         print('%-8s %-4s %-9s %s' % (r['seed'], r['property'], r['status'], '; '.join(r.get('violations', [])) or r.get('why', '')))
     if a.update_meta:
         for r in out:
             if r['status'] == 'detected':
-                mp = os.path.join(V, 'seeded', r['seed'], 'meta.json')
+                mp = os.path.join(V, a.corpus, r['seed'], 'meta.json')
                 m = json.load(open(mp))
                 m['detected_by'] = r['violations']
                 json.dump(m, open(mp, 'w'), indent=1)
     if a.json:
         json.dump(out, open(a.json, 'w'), indent=1)
-    sys.exit(0 if all(r['status'] in ('detected', 'skipped') for r in out) else 3)
+    sys.exit(0 if all(r['status'] in ('detected', 'skipped', 'silent') for r in out) else 3)
